@@ -141,6 +141,17 @@ def hex_malformed_cases(rng, tier):
                 cases.append("parse %s %s %s" % (v, mode, hx(content)))
             if L >= 2:
                 cases.append("parse %s auto %s" % (v, hx(content[2:] + b"00")[:1 + 2 * L]))
+        # wrong length TOGETHER WITH a bad prefix / a bad header or body character, in every mode: a wrong length is always a length error
+        for L in sorted(set([0, 1, 2, 3, 4, ls - 3, ls - 2, ls - 1, ls + 1, ls + 2, ls + 3, 2 * ls, 2 * ls - 2, 200])):
+            if L < 0 or L in (ls, ls - 2):
+                continue
+            base = (good * 3)[:L]
+            variants = [b"T2" + base[2:], b"t1" + base[2:], base[:3] + b"g" + base[4:], base[:2] + b"@" + base[3:],
+                        base[:L - 1] + b"G" if L else base, b"X" * L]
+            for d in variants:
+                d = d[:L] if len(d) >= L else d + b"0" * (L - len(d))
+                for mode in ("auto", "with", "empty"):
+                    cases.append("parse %s %s %s" % (v, mode, hx(d)))
         # prefix variants
         for pfx in (b"T1", b"t1", b"T2", b"T0", b"1T", b"TT", b"11", b"\x00\x00", b"T\xff", b"\xd41", b" 1", b"T "):
             for mode in ("auto", "with", "empty"):
